@@ -263,6 +263,25 @@ def step (ss : Sess) (line : String) : Sess × String :=
         else (ss, "unsupported")
       | none => (ss, "bad-op")
     | _, _ => (ss, "bad-op")
+  -- pronto
+  | "pronto_enc" :: freq :: kind :: ws =>
+    match freq.toInt? with
+    | some f =>
+      let inp : Option Pronto.Input := match kind with
+        | "flat" => (parseInts ws).map Pronto.Input.flat
+        | "nested" => ((splitBar ws).mapM parseInts).map Pronto.Input.nested
+        | _ => none
+      match inp with
+      | some i => (ss, "ok " ++ Pronto.render (Pronto.rlcToPronto f i))
+      | none => (ss, "bad-op")
+    | none => (ss, "bad-op")
+  | "pronto_dec" :: ws =>
+    match ws.mapM (·.toNat?) with
+    | some l =>
+      match Pronto.prontoToRlc l with
+      | .ok (f, seqs) => (ss, s!"ok {f} ; {showNested seqs}")
+      | .error e => (ss, "err " ++ e.name)
+    | none => (ss, "bad-op")
   -- streaming thread, fine-grained machine with the scripted dispatcher
   | ["st_new"] => ({ ss with strm := { ds := 0 } }, "ok")
   | "st_fpush" :: f :: ws =>
